@@ -5,6 +5,8 @@ package main
 import (
 	"bufio"
 	"encoding/json"
+	"os"
+	"path/filepath"
 
 	"github.com/ErdemOzgen/blackdagger/internal/dag"
 )
@@ -16,6 +18,9 @@ import (
 type yamlCase struct {
 	ID   string `json:"id"`
 	YAML string `json:"yaml"`
+	// base configuration (the file every DAG inherits from): when given, both texts are written to files and loaded
+	// with dag.Load(base, file, "") as start / retry / restart do
+	Base string `json:"base,omitempty"`
 }
 
 type yStep struct {
@@ -59,7 +64,18 @@ func yamlCaseRun(line []byte, out *bufio.Writer) {
 				res.Err = "panic"
 			}
 		}()
-		d, err := dag.LoadYAML([]byte(c.YAML))
+		var d *dag.DAG
+		var err error
+		if c.Base != "" {
+			dir, _ := os.MkdirTemp("", "verif-yaml-")
+			defer os.RemoveAll(dir)
+			bp, fp := filepath.Join(dir, "base.yaml"), filepath.Join(dir, "d.yaml")
+			_ = os.WriteFile(bp, []byte(c.Base), 0o644)
+			_ = os.WriteFile(fp, []byte(c.YAML), 0o644)
+			d, err = dag.Load(bp, fp, "")
+		} else {
+			d, err = dag.LoadYAML([]byte(c.YAML))
+		}
 		if err != nil {
 			res.Err = "error"
 			return
